@@ -11,6 +11,9 @@ if r['part'] == 'hrg':
     p = R.check_hrg_roundtrip(fggs, r['spec'], r['imps'] + [1000, 1001, 1002, 1003, 1004, 1005])
 elif r['part'] == 'reject':
     p = R.check_reject(fggs, r['n'], r['att'], r['ext'])
+elif r['part'] == 'weights_to_json':
+    import c14_defs
+    p = c14_defs.weights_json_roundtrip(fggs, r['wspec'], r['cvals'])
 elif r['part'] == 'fgg':
     import c14_defs
     p = c14_defs.fgg_roundtrip(fggs, torch, r['spec'], r['patterned'])
